@@ -121,6 +121,51 @@ def check_tree_3phase(tree, values):
     return v, n_cmp, len(inputs)
 
 
+METER_FORMULAS_Q = ["#1 + #2", "#1 * #2", "#1 - #2 * #1", "#1 * (#2 + #1)", "#1 + (#2 * #1)"]
+METER_FORMULAS_T = METER_FORMULAS_Q + ["#1 / #2", "#1-#2", "(#1 - #2) * #1", "#2 + #1"]
+METER_INPUTS = [{1: 3.0, 2: -7.0}, {1: 0.0, 2: 3.0}, {1: 5.0, 2: 2.0}, {1: -7.0, 2: -7.0}, {1: 0.5, 2: 0.0}]
+
+
+def meter_plans(tier):
+    """Every ordered pair (quick) / also every triple over a reduced menu (thorough) of (formula string, metric)
+    handed to one LogicalMeter; includes the same string for two metrics and the same (string, metric) twice."""
+    fs = METER_FORMULAS_Q if tier == "quick" else METER_FORMULAS_T
+    items = [(f, m) for f in fs for m in (0, 1)]
+    plans = [list(p) for p in itertools.product(items, repeat=2)]
+    if tier != "quick":
+        small = [(f, m) for f in METER_FORMULAS_Q[:3] for m in (0, 1)]
+        plans += [list(p) for p in itertools.product(small, repeat=3)]
+    return plans
+
+
+def check_meter(plan):
+    plan = [tuple(x) for x in plan]
+    outs, reqs = F.run_meter(plan, METER_INPUTS)
+    v = []
+    n_cmp = 0
+    want = sorted({(cid, m) for f, m in plan for cid in (1, 2) if f"#{cid}" in f})
+    if reqs != want:
+        v.append(("subscribes_to_every_component_in_the_formula", {"requested": reqs, "used": want}))
+    for label, out in outs.items():
+        got = dict(out)
+        ks = [k for k, _ in out]
+        if ks != sorted(set(ks)):
+            v.append(("samples_in_order_without_duplicates", {"engine": label, "timestamps": ks[:20]}))
+        for k, vals in enumerate(METER_INPUTS):
+            exp = F.ref_meter(label, plan, vals)
+            if exp is None:
+                continue
+            n_cmp += 1
+            if k not in got:
+                v.append(("one_sample_per_timestamp", {"engine": label, "timestamp": k, "inputs": {str(a): b for a, b in vals.items()}}))
+            elif not F.close(got[k], exp):
+                v.append(("value_equals_expression", {"engine": label, "timestamp": k, "inputs": {str(a): b for a, b in vals.items()},
+                                                      "got": got[k], "expected": exp}))
+            if len(v) >= 3:
+                return v, n_cmp, len(outs)
+    return v, n_cmp, len(outs)
+
+
 CLAUSES = ["value_equals_expression", "one_sample_per_timestamp", "samples_in_order_without_duplicates"]
 
 
@@ -145,6 +190,25 @@ def shard(args) -> Acc:
             acc.outcome(f"tree3 ops={F.n_ops(t)}")
             for clause, detail in viol:
                 acc.violation(Violation(clause, {"driver": "tree3", "tree": t, "shown": F.show(t), "values": values[:3]}, detail))
+    elif kind == "meter":
+        for plan in meter_plans(tier)[lo[1]:hi]:
+            viol, n_cmp, n_eng = check_meter(plan)
+            acc.evaluations += n_cmp
+            acc.transitions += n_cmp
+            acc.traces += 1
+            acc.counters["programs"] += n_eng
+            acc.counters["logical_meter_plans"] += 1
+            acc.counters["timestamps_compared"] += n_cmp
+            for c in CLAUSES:
+                acc.clauses[c] += 1
+            acc.nontrivial += 1
+            same_f = len({f for f, _ in plan}) < len(plan)
+            same_m = len({m for _, m in plan}) < len(plan)
+            acc.outcome(f"meter same_formula={same_f} same_metric={same_m}")
+            if acc.traces % 40 == 1:
+                acc.sample({"logical_meter_plan": plan, "engines": n_eng})
+            for clause, detail in viol:
+                acc.violation(Violation(clause, {"driver": "meter", "plan": plan}, detail))
     elif kind in ("tree", "deep"):
         n = lo[0]
         progs = (F.trees(n) if kind == "tree" else deep_trees())[lo[1]:hi]
@@ -203,6 +267,8 @@ def run(tier: str, seed: int, workers: int):
     total = len(F.string_programs(mo))
     for lo in range(0, total, step):
         shards.append(("string", tier, (mo, lo), lo + step))
+    for lo in range(0, len(meter_plans(tier)), 20):
+        shards.append(("meter", tier, (0, lo), lo + 20))
     if seed:
         import random
 
@@ -214,14 +280,18 @@ def run(tier: str, seed: int, workers: int):
         "in the association the tree dictates; plus shape-directed trees with 3-4 operators in which a binary node with composite or "
         "unary operands is itself the left / right operand of another binary node; every formula string with up to 3 (quick) / 4 (thorough) operators over #1 #2 #3 with "
         "flat, one and two (nested or disjoint) parenthesised ranges, redundant parentheses and no-whitespace variants; the same trees with "
-        "1 (quick) / 2 (thorough) operators over 3-phase engines (FormulaEngine3Phase leaves, per-phase reference).  Inputs: one "
+        "1 (quick) / 2 (thorough) operators over 3-phase engines (FormulaEngine3Phase leaves, per-phase reference); every ordered pair "
+        "(thorough: also every triple over a reduced menu) of (formula string, metric) from 5 (quick) / 9 strings x {ACTIVE_POWER, REACTIVE_POWER} "
+        "started through one LogicalMeter.start_formula (engine pool), with the streams of the two metrics carrying different values, every "
+        "pair of the returned engines composed with each of + - * / max min and built, all engines compared.  Inputs: one "
         "timestamp per combination of leaf values from {-7,0,3} (quick) / {-7,-1,0,0.5,3}, plus 4 vectors with tiny non-zero and "
         "nearly cancelling values.  A program is one trace; an evaluation "
         "is one timestamp; non-trivial = at least 2 operators and 2 distinct leaves",
         "assumptions": [
             "lock-step delivery of the inputs (the schedule dimension is C06's subject)",
             "timestamps whose reference value is undefined (division by zero) are excluded here and decided by C13",
-            "distinct engines have distinct names (sharing a name is a caller error)",
+            "engines the caller builds and names itself have distinct names (the names of engines started through LogicalMeter are "
+            "chosen by the SDK and are part of what is checked)",
         ],
         "exhaustive": True,
         "bounds": {"tree_ops": 2 if tier == "quick" else 3, "string_ops": mo},
@@ -234,6 +304,9 @@ def _tuplify(t):
 
 
 def replay(case: dict):
+    if case["driver"] == "meter":
+        v, _, _ = check_meter(case["plan"])
+        return v
     if case["driver"] == "tree3":
         v, _, _ = check_tree_3phase(_tuplify(case["tree"]), case["values"])
         return v
